@@ -297,6 +297,9 @@ func ConvertString(octetString ...string) ([]string, error) {
 
 	for _, s := range octetString {
 		data := []byte(s)
+		if len(data) == 0 {
+			return nil, fmt.Errorf("%s: missing ber encoding type (empty string): %w", op, ErrInvalidParameter)
+		}
 
 		switch {
 		case
@@ -321,6 +324,9 @@ func ConvertString(octetString ...string) ([]string, error) {
 // copied directly from github.com/go-asn1-ber/asn1-ber@v1.5.4/length.go
 // it has an MIT license: https://github.com/go-asn1-ber/asn1-ber/blob/master/LICENSE
 func readLength(bytes []byte) (length int, read int, err error) {
+	if len(bytes) == 0 {
+		return 0, read, errors.New("missing length byte")
+	}
 	// length byte
 	b := bytes[0]
 	read++
@@ -345,6 +351,9 @@ func readLength(bytes []byte) (length int, read int, err error) {
 		// TODO: support big int length?
 		if lengthBytes > 8 {
 			return 0, read, errors.New("long-form length overflow")
+		}
+		if len(bytes) < read+lengthBytes {
+			return 0, read, errors.New("long-form length is truncated")
 		}
 
 		// Accumulate into a 64-bit variable
